@@ -486,6 +486,34 @@ def rt_lockeds(types, full):
     return out
 
 
+def wake_windows(types, full):
+    out, k = [], 0
+    recv_outers = ["RECV", "TRY_RECV", "TRY_RECV_RT", "RECV_TO", "DRAIN", "ARECV"]
+    send_outers = ["SEND", "TRY_SEND", "TRY_SEND_OPT", "TRY_SEND_RT", "TRY_SEND_OPT_RT", "SEND_TO", "SEND_OPT_TO", "ASEND"]
+    for recv_side, outers, peers in ((True, recv_outers, ["TRY_SEND", "OBSERVE"]), (False, send_outers, ["TRY_RECV", "OBSERVE"])):
+        for outer in outers:
+            for peer in (peers if full else [peers[k % 2]]):
+                for cap in ((0, 1, 2) if full else ([1, 2, 0][k % 3],)):
+                    if not recv_side and cap == 2 and not full:
+                        cap = 1
+                    T = types[k % len(types)]
+                    out.append(simple("w_%s_c%d_%s_%s_%s" % (tname(T), cap, "rs" if recv_side else "ss", outer, peer),
+                                      "wake_window::<%s>(%d, %s, %s, %s);" % (T, cap, "true" if recv_side else "false", ACT[outer], ACT[peer]),
+                                      "third party %s scheduled at the entry of the hand-off performed by %s (%s served; cap %d)" % (
+                                          peer, outer, "pending sender" if recv_side else "pending receiver", cap)))
+                    k += 1
+    return out
+
+
+# sequences that need a buffer of 2 (refill position is only visible then)
+REFILL2 = [["try_send", "try_send", "asend_start0", rk, "try_recv", "try_recv", "asend_poll0w0"]
+           for rk in ("try_recv", "try_recv_rt", "recv", "recv_timeout")] + [
+    ["try_send", "try_send", "asend_start0", "arecv_start0", "try_recv", "try_recv", "asend_poll0w0"],
+    ["try_send", "try_send", "asend_start0", "stream_start", "stream_pollw0", "stream_pollw0", "asend_poll0w0"],
+    ["try_send", "try_send", "asend_start0", "asend_start1", "try_recv", "drain", "asend_poll0w0", "asend_poll1w1"],
+]
+
+
 def pick(L, n, seed=0):
     """n evenly spread elements of L (deterministic)"""
     if len(L) <= n:
@@ -555,28 +583,35 @@ def instances(prop, tier):
             L += CL
     elif prop == "C02":
         L += seqs(cur("three", "timedq", "refill"), DROPPY, [0, 1])
+        L += seqs(REFILL2, DROPPY, [2])
         L += seqs(cur("fifo", "recvq", "basic"), DROPPY, [0, 1, 2] if full else [1])
         L += seqs(cur("fifo"), DROPPY, [0, 2])
         L += drain_states(DROPPY, full)
         L += B(["SEND", "SEND_TO"], RECV_PEERS, DROPPY, [1])
         L += [future_drop(T, c, ss, 1) for T in DROPPY for c in (0, 1) for ss in (True, False)]
         if not full:
-            L = seqs(cur("three", "timedq"), DROPPY, [0]) + pick(L, 26)
+            L = seqs(cur("three", "timedq"), DROPPY, [0]) + seqs(REFILL2[:4], DROPPY, [2]) + pick(L, 24)
     elif prop == "C03":
         L += B(SEND_OUTERS, RECV_PEERS + KILL_FOR_SENDER + ["OBSERVE"], MIXED, [0, 1])
         L += B(RECV_OUTERS, SEND_PEERS + KILL_FOR_RECEIVER + ["OBSERVE"], MIXED, [0, 1])
         L += async_matrix(MIXED, [0, 1], full)
         L += seqs(CURATED, MIXED, [0, 1] if full else [1])
+        WW = wake_windows(MIXED, full)
         if not full:
-            L = pick(L, 34)
+            L = pick(L, 22) + WW
+        else:
+            L += WW
     elif prop == "C04":
         L += ptr_units()
         L += B(["SEND", "SEND_TO"], ["RECV", "TRY_RECV", "DRAIN", "ARECV"], ZST + PLAIN, [0, 1])
         L += B(["RECV", "RECV_TO"], ["SEND", "TRY_SEND", "TRY_SEND_OPT", "ASEND"], ZST + PLAIN, [0, 1])
         A = async_matrix(ZST + PLAIN, [0, 1], full, repoll_opts=(0,))
         L += [i for i in A if "close" not in i.name and "drop" not in i.name and "nop" not in i.name]
+        SP = split_matrix(["u32", "Big", "Pad"], full, outers=("RECV_TO", "SEND_TO", "RECV"))
         if not full:
-            L = ptr_units() + pick(L[len(ptr_units()):], 22)
+            L = ptr_units() + pick(L[len(ptr_units()):], 20) + pick(SP, 8, 1)
+        else:
+            L += SP
     elif prop == "C05":
         L += B(SEND_OUTERS, RECV_PEERS + KILL_FOR_SENDER, DROPPY, [0, 1])
         L += [timed_alone(T, c, o) for T in DROPPY for c in (0, 1) for o in ("SEND_TO", "SEND_OPT_TO")]
@@ -592,7 +627,6 @@ def instances(prop, tier):
         if not full:
             L = pick(L, 38)
     elif prop == "C06":
-        L += B(["SEND", "RECV"], RECV_PEERS + KILL_FOR_SENDER, DROPPY, [0, 1])
         L += B(["RECV"], SEND_PEERS + KILL_FOR_RECEIVER, DROPPY, [0, 1])
         L += B(["SEND"], RECV_PEERS + KILL_FOR_SENDER, DROPPY, [0, 1])
         L += async_matrix(DROPPY, [0, 1], full)
@@ -619,10 +653,11 @@ def instances(prop, tier):
         L += B(SEND_OUTERS, RECV_PEERS, DROPPY, [0, 1])
         A = async_matrix(DROPPY, [0, 1], full)
         L += [i for i in A if "_sf_" in i.name]
+        WW = [i for i in wake_windows(DROPPY, full) if "try_send" in i.name.split("_")[-2:] or i.name.endswith("try_send")]
         if not full:
-            L = pick(L, 26) + ZS[::2]
+            L = pick(L, 22) + ZS[::2] + pick(WW, 5)
         else:
-            L += ZS
+            L += ZS + WW
     elif prop == "C09":
         L += B(["SEND", "SEND_TO"], ["ARECV"], MIXED, [0, 1])
         L += B(["RECV", "RECV_TO"], ["ASEND"], MIXED, [0, 1])
@@ -632,8 +667,11 @@ def instances(prop, tier):
                                     ["clone_s1", "clone_r1", "drop_s", "drop_r", "asend_start0", "recv", "asend_poll0w0"],
                                     ["clone_s2", "clone_r3", "convert_s", "try_send", "stream_start", "stream_pollw0"]], MIXED, [0, 1])
         L += drain_states(MIXED, False)[:4]
+        CA = seqs([c for c in clone_after() if not c[0].startswith("close")], MIXED, [1])
         if not full:
-            L = pick(L, 30)
+            L = pick(L, 26) + CA
+        else:
+            L += CA
     elif prop == "C10":
         L += B(SEND_OUTERS, ["CLOSE_S", "CLOSE_R"], DROPPY, [0, 1])
         L += B(RECV_OUTERS, ["CLOSE_S", "CLOSE_R"], DROPPY, [0, 1])
@@ -731,6 +769,7 @@ def instances(prop, tier):
                 L.append(seqc(MIXED[k % len(MIXED)], [1, 0, 2][k % 3], s_))
                 k += 1
             L += seqs(clone_after()[::3], MIXED, [1])
+            L += seqs(REFILL2, MIXED, [2])
     elif prop == "C19":
         L += drain_states(DROPPY, full)
         L += B(["SEND", "SEND_TO", "SEND_OPT_TO"], ["DRAIN"], DROPPY, [0, 1])
@@ -748,7 +787,7 @@ def instances(prop, tier):
 
 
 # thorough tier: at most this many solver queries per property (about an hour on 16 cores)
-THOROUGH_MAX = 320
+THOROUGH_MAX = 200
 
 K_PROPS = ["C01", "C02", "C03", "C04", "C05", "C06", "C07", "C08", "C09", "C10", "C11", "C12", "C13", "C14", "C15", "C16",
            "C18", "C19"]
